@@ -362,7 +362,10 @@ def ods_rows(source_ods_path, sheet=1):
     location = errors.Location(source_ods_path, has_cell=True, has_sheet=True)
     for _ in range(sheet - 1):
         location.advance_sheet()
-    table_rows = list(_ods_table_rows(table_element))
+    try:
+        table_rows = list(_ods_table_rows(table_element))
+    except RecursionError:
+        raise errors.DataFormatError("row groups in ODS spreadsheet are nested too deeply", location)
     for table_row_index, table_row in enumerate(table_rows):
         repeated_rows_text = table_row.attrib.get(_NUMBER_ROWS_REPEATED, "1")
         try:
@@ -395,10 +398,13 @@ def ods_rows(source_ods_path, sheet=1):
                     location,
                 )
             # A cell can contain multiple paragraphs, each possibly split into spans and white space elements.
-            cell_value = "\n".join(
-                _ods_element_text(text_p, location)
-                for text_p in _findall(table_cell, "text:p", namespaces=_OOO_NAMESPACES)
-            )
+            try:
+                cell_value = "\n".join(
+                    _ods_element_text(text_p, location)
+                    for text_p in _findall(table_cell, "text:p", namespaces=_OOO_NAMESPACES)
+                )
+            except RecursionError:
+                raise errors.DataFormatError("text in ODS spreadsheet cell is nested too deeply", location)
             try:
                 row.extend([cell_value] * repeated_count)
             except (MemoryError, OverflowError):
